@@ -269,6 +269,13 @@ def judge_schema_truncations(ctx, quick):
             continue
         if (r == "ok" or not r.endswith("@%d" % want)) and len(ctx.violations) < 40:
             ctx.report("schema parse error position: Check(%r) says %s, %s: expected an error at %d" % (t[-40:], r, why, want), "schemapos:" + t, {"schema": t, "implementation": r, "expected_position": want, "why": why}, case=t)
+    dups = [("1 // {min: 1, min:     2}", 14), ('1 // {"min": 1, "min":     2}', 16), ('"a" // {minLength: 1, regex: "a", minLength:   2}', 34), ("1 /* {min: 1,\n    min: 2} */", 18),
+            ("{\n  \"k\": 1 // {optional: true, optional:  false}\n}", 31)]
+    for (t, want), o in zip(dups, vc.impl(["schema"], [json.dumps({"schema": t, "ops": [["check"]]}) for t, _ in dups])):
+        r = json.loads(o)[0]
+        ctx.evaluations += 1
+        if r != "E501@%d" % want and len(ctx.violations) < 40:
+            ctx.report("a rule written twice: Check(%r) says %s, the repeated rule name starts at %d" % (t, r, want), "schemapos:" + t, {"schema": t, "implementation": r, "expected_position": want}, case=t)
     ecases = [("[1] /", 4), ("[1]/", 3), ('["a", "b"] /*', 12), ("[1 /", 3)]
     for (t, want), o in zip(ecases, vc.impl(["enumrule"], [json.dumps({"text": t}) for t, _ in ecases])):
         r = json.loads(o)[0]
